@@ -175,17 +175,27 @@ def parse_output_models(out):
     cur = None
     sect = None
     soln = None
-    pending = {"range_err": 0, "roundoff": 0}
+    pending = {"range_err": 0, "roundoff": 0, "bare": 0, "minimal_warn": 0}
+    ro_open = False        # a 'CL1: Roundoff errors' message not yet attributed to range() or to a model solve
     for line in text.split("\n"):
         if "Error in subroutine range" in line:
             pending["range_err"] += 1
-        if "CL1: Roundoff errors" in line:
+            ro_open = False                      # the message came from a cl1 call inside range()
+        elif "CL1: Roundoff errors" in line:
+            if ro_open:
+                pending["bare"] += 1
             pending["roundoff"] += 1
+            ro_open = True
+        elif ro_open and line.strip() and "Try using -multiple_precision" not in line:
+            pending["bare"] += 1                 # not followed by the range() complaint: a model solve failed
+            ro_open = False
+        if "Roundoff errors in minimal calculation" in line:
+            pending["minimal_warn"] += 1
         m = re.match(r"^Solution (\d+): ", line + " ")
         if m:
             if cur is None or sect in ("phases", "redox", "tail"):
                 cur = {"solutions": {}, "fractions": {}, "phases": {}, "redox": {}, "minimal_note": False, "order": [], "pre": pending}
-                pending = {"range_err": 0, "roundoff": 0}
+                pending = {"range_err": 0, "roundoff": 0, "bare": 0, "minimal_warn": 0}
                 models.append(cur)
             soln = int(m.group(1))
             cur["solutions"][soln] = {}
@@ -317,11 +327,23 @@ def render(problem):
 
 
 # ----------------------------------------------------------------------------------------------- the oracle
-# fingerprints of the mechanisms found on the unchanged tree (see the calibration notes in mc/props/c18.py)
-FP_RANGE0 = "range: phase with |transfer| < 1e-9 is printed although it is not a member of the model; its range is 0..0"
-FP_RANGE_ERR = "range: min/max reported although the library printed 'Error in subroutine range' (cl1 status ignored in range())"
-FP_RANGE_SUBOPT = "range: value outside its reported min..max (min <= max, no solver message: cl1 returned a non-optimal bound)"
-FP_ROUNDOFF_MODEL = "model: reported although the library printed 'CL1: Roundoff errors' for it (cl1 status ignored); it violates its constraints"
+# Fingerprints.  Without a known mechanism a fingerprint names the relation of the statement that fails ("sign: ...",
+# "delta: ...", "balance: ...", "range: ...", "minimal: ...").  Where the library's own output identifies the mechanism
+# that produced the failing numbers, the fingerprint names that mechanism only (one mechanism = one line, whatever
+# relations its garbage breaks; the relation is in the explanation).  The mechanisms were all found on the unchanged
+# tree (calibration notes in mc/props/c18.py).
+TOL_MEMBER = 1e-9       # implementation constant TOL (global_structures.h): |x| <= 1e-9 => not a member of the model
+RANGE_MAX = 1000.0      # manual: default 'maximum' of -range; min/max are the feasible values nearest to -/+ maximum
+FP_MINIMAL = "minimal_solve: model printed after a failed cl1 solve (status of the last solve_with_mask ignored)"
+FP_RANGE_ERR = "range(): min/max of a failed cl1 call are reported ('Error in subroutine range' printed, result kept)"
+FP_RANGE_PRUNED = "range(): computed for the model pruned of |transfer| <= 1e-9 members while the reported values come from the unpruned solve (value outside min..max by O(1e-9))"
+FP_RANGE_H2O = "range: value outside min..max, candidate phases differing only by H2O with -mineral_water true (near-collinear columns, cl1 kode 0)"
+FP_MODEL_H2O = "model: constraint violated, candidate phases differing only by H2O with -mineral_water true (near-collinear columns, cl1 kode 0)"
+FP_RANGE_MIX = "range: value outside min..max, two or more initial solutions (cl1 in range() returns kode 0 for a non-optimal bound)"
+FP_RANGE = "range: value outside its reported min..max"
+FP_RANGE_INV = "range: min > max"
+
+
 def solver_tolerance(opts):
     """The declared solver tolerance ('numbers smaller than this are zero'): -tolerance (default 1e-10), or
     -mp_tolerance (default 1e-12) with -multiple_precision."""
@@ -434,18 +456,24 @@ def judge(problem, stoich, out, selstr):
                 problems.append(("sign: precipitate-only phase dissolves", "%s: %s (precipitate) transfer %r" % (tag, p, t[p])))
         # ---- range
         if opts.get("range"):
+            tiny = [p for p in phases if 0.0 < abs(t[p]) <= TOL_MEMBER] + ["Soln_%d" % n for n in solns if 0.0 < abs(f[n]) <= TOL_MEMBER]
             for name, v in [("Soln_%d" % n, f[n]) for n in solns] + [(p, t[p]) for p in phases]:
                 lo, hi = row[name + "_min"], row[name + "_max"]
+                if abs(v) > RANGE_MAX:
+                    # documented semantics: min/max are clipped to -/+ maximum (default 1000); the statement cannot
+                    # hold for an unbounded transfer (e.g. two phases of identical formula) - not judged
+                    info.setdefault("diags", []).append("%s: %s = %r exceeds the -range maximum %g; range [%r, %r] not judged" % (tag, name, v, RANGE_MAX, lo, hi))
+                    continue
                 slack = tol + 1e-11 * max(abs(v), abs(lo), abs(hi))
                 if not (lo - slack <= v <= hi + slack):
-                    kind = "solution" if name.startswith("Soln_") else "phase"
-                    if lo == 0.0 and hi == 0.0 and abs(v) < 1e-9 and kind == "phase":
-                        fp = FP_RANGE0
-                    elif lo > hi + slack:
-                        fp = "range: min > max"
+                    exceed = max(lo - v, v - hi)
+                    what = "%s: %s = %r but reported range is [%r, %r] (declared solver tolerance %g)" % (tag, name, v, lo, hi, tol)
+                    if lo > hi + slack:
+                        problems.append((FP_RANGE_INV, what))
+                    elif tiny and exceed <= 10 * TOL_MEMBER:
+                        problems.append((FP_RANGE_PRUNED, what + "; members below the threshold: %s" % ", ".join("%s=%r" % (q, t[q] if q in t else f[int(q[5:])]) for q in tiny)))
                     else:
-                        fp = FP_RANGE_SUBOPT
-                    problems.append((fp, "%s: %s = %r but reported range is [%r, %r] (declared solver tolerance %g)" % (tag, name, v, lo, hi, tol)))
+                        problems.append((FP_RANGE, what))
         # ---- (i) every printed adjustment within its declared uncertainty
         present = [n for n in solns if n in mod["solutions"]]
         for n in solns:
@@ -527,18 +555,25 @@ def judge(problem, stoich, out, selstr):
                                  "%s: element %s: sum f (c+d) + sum t nu - (c+d)_final = %r mol, print rounding allows %r" % (tag, e, r2, err)))
         sets.append(frozenset(["s%d" % n for n in solns if f[n] != 0] + [p for p in phases if t[p] != 0]))
         pre = mod["pre"]
-        info.setdefault("pre", []).append((pre["range_err"], pre["roundoff"]))
+        info.setdefault("pre", []).append((pre["range_err"], pre["bare"]))
+        # ---- attribute the failures of this model to a mechanism the library's own output identifies
         for i in range(start, len(problems)):
             fp, what = problems[i]
+            if fp == FP_RANGE_PRUNED or fp.startswith("report:") or fp.startswith("input:"):
+                continue
+            what = "%s [%s]" % (what, fp)
             if fp.startswith("range:"):
-                if fp == FP_RANGE0:
-                    pass
-                elif pre["range_err"]:
-                    problems[i] = (FP_RANGE_ERR, what + "; the library printed 'Error in subroutine range. Kode = ..' %d time(s) for this model" % pre["range_err"])
+                if pre["range_err"]:
+                    problems[i] = (FP_RANGE_ERR, what + "; 'Error in subroutine range. Kode = ..' printed %d time(s) for this model" % pre["range_err"])
                 elif collinear:
-                    problems[i] = (fp, what + "; candidate phases %s and %s differ only by H2O (-mineral_water true: ill-conditioned)" % collinear)
-            elif pre["roundoff"]:
-                problems[i] = (FP_ROUNDOFF_MODEL, "%s [%s]; the library printed 'CL1: Roundoff errors in optimization' %d time(s) immediately before this model" % (what, fp, pre["roundoff"]))
+                    problems[i] = (FP_RANGE_H2O, what + "; candidate phases %s and %s" % collinear)
+                elif nsol > 2:
+                    problems[i] = (FP_RANGE_MIX, what)
+            elif mod["minimal_note"] and pre["bare"]:
+                problems[i] = (FP_MINIMAL, what + "; %d 'CL1: Roundoff errors in optimization' message(s) from model solves precede this 'minimum number of phases' model%s" % (
+                    pre["bare"], ", and 'WARNING: Roundoff errors in minimal calculation'" if pre["minimal_warn"] else ""))
+            elif collinear:
+                problems[i] = (FP_MODEL_H2O, what + "; candidate phases %s and %s" % collinear)
     info["sets"] = [sorted(s) for s in sets]
     # ---- (iv) -minimal
     if opts.get("minimal"):
@@ -546,10 +581,10 @@ def judge(problem, stoich, out, selstr):
             for b in range(len(sets)):
                 if a != b and sets[a] > sets[b]:
                     what = "model %d %s contains model %d %s" % (a + 1, sorted(sets[a]), b + 1, sorted(sets[b]))
-                    if models[a]["pre"]["roundoff"] or models[b]["pre"]["roundoff"]:
-                        problems.append((FP_ROUNDOFF_MODEL, what + " [minimal]; the library printed 'CL1: Roundoff errors in optimization' immediately before one of them"))
-                    else:
-                        problems.append(("minimal: a reported model strictly contains another reported model", what))
+                    fp = "minimal: a reported model strictly contains another reported model"
+                    if models[a]["pre"]["bare"] or models[b]["pre"]["bare"]:
+                        what, fp = "%s [%s]" % (what, fp), FP_MINIMAL
+                    problems.append((fp, what))
     # de-duplicate by fingerprint
     seen, uniq = set(), []
     for p in problems:
